@@ -32,7 +32,7 @@ def run(ctx, model_available=True):
                                     "desc": f"protocol {version}, sends while the release is suspended in a write, schedule {acts}: {desc}",
                                     "case": {"actions": acts, "version": version}})
         r.close()
-        if len([f for f in res["failures"] if f["sig"].startswith("C07:race")]) >= 2:
+        if len([f for f in res["failures"] if (f["sig"] or "").startswith("C07:race")]) >= 2:
             break
     res["evaluations"] += nrace
     res["distribution"]["race_schedules"] = nrace
